@@ -4,6 +4,8 @@ import (
 	"fmt"
 	"reflect"
 	"sync"
+
+	"github.com/gauss-project/aurorafs/pkg/verifhook"
 )
 
 type subInfo struct {
@@ -78,9 +80,11 @@ func (s *subPub) process() {
 			}
 			slice = append(slice, &info)
 			s.keyToNotifier.Store(info.key, slice)
+			verifhook.PointArg("subscribe.sub.done", info.key)
 		case info := <-s.unsubInfoChan:
 			v, ok := s.keyToNotifier.Load(info.key)
 			if !ok {
+				verifhook.PointArg("subscribe.unsub.done", info.key)
 				continue
 			}
 			slice := v.([]*subInfo)
@@ -96,6 +100,7 @@ func (s *subPub) process() {
 			} else {
 				s.keyToNotifier.Store(info.key, cSlice)
 			}
+			verifhook.PointArg("subscribe.unsub.done", info.key)
 		}
 	}
 }
